@@ -1,2 +1,57 @@
-// Package c17 will hold the check for property C17.
+// Package c17 decides C17: extension hooks decide exactly what they say; a broken script never
+// loses mail.  Abstract script specifications (decision lists over the hook's input with leaves
+// allow / deny / defer / nil / garbage / error / mutate-then-fail / rewrite) are rendered to Lua
+// and installed with luahost.NewFromReader on a real SMTP server + manager + store.  The oracle
+// (M-lua) evaluates the specification in Go - it never interprets Lua - and compares with the
+// observed SMTP replies and store contents; wherever no hook answers, the same dialogue is also
+// run against an identically configured server without any handler and must give the same result.
 package c17
+
+import (
+	"verifharness/internal/fw"
+)
+
+func init() {
+	fw.Register(&fw.Prop{
+		ID:    "C17",
+		Level: "exploration",
+		Race:  true,
+		Rule: "stream script: one generated script specification per case (any subset of the five Lua handlers, decision lists over " +
+			"session.from / last session.to / #session.to / msg.subject / msg.mailboxes[1] / #msg.mailboxes / msg.from, leaves allow, deny(400-599,text, " +
+			"optionally echoing the input), defer, nil, garbage values, error forms, mutate-then-{error,nil,garbage,allow,defer}, rewrite of " +
+			"mailboxes (empty list, several, names no recipient named, derived from input) / from / to / subject, on the passed or a fresh object; " +
+			"after-handlers that do nothing / error / return values / hit a runtime error / assign to their argument's addresses and then error; " +
+			"optionally a Go listener with a fixed answer registered before or after the Lua host) x naming{local,full,domain} x default-accept{t,f} x " +
+			"default-store{t,f} x backend{mem,file}; 3-6 SMTP sessions of 1-3 transactions each, run in lock step against the hooked server and an " +
+			"identically configured handler-less reference server; finally one stored message is removed (after.message_deleted). stream conc: 8-32 simultaneous sessions with session-unique addresses against one " +
+			"script whose deny texts echo the session's data and which routes by subject. A sequential case is non-trivial and distinct by " +
+			"(configuration, per-command effective decision with the chain of leaf classes consulted, rewrite shape).",
+		Assumptions: []string{
+			"sessions are served through VerifServeConn (the real startSession) on an in-memory net.Conn",
+			"addresses are unquoted atom@domain forms (plus the null sender), so the value the hook sees is the text that was sent",
+			"an explicit smtp.defer() by the first listener followed by a listener that answers: both 'policy decides' and 'the later listener decides' are accepted (the statement leaves open whether defer counts as an answer); counted as unspecified:*",
+			"deny() without arguments: only a refusal (code >= 400) is demanded, the default text is the implementation's",
+			"a hook's allow is only checked for syntactically valid addresses below the recipient limit",
+			"rewritten mailbox names are lower-case atoms; duplicate names in a returned list and non-string list entries are not generated",
+			"the stored Size and message id are not judged here (C01/C02)",
+		},
+		MinObs: func(tier string) map[string]int64 {
+			return map[string]int64{
+				"scripts": 100, "transactions": 500, "deliveries": 200, "messages_checked": 200,
+				"mail:deny": 10, "rcpt:deny": 20, "mail:allow-against-policy": 3, "rcpt:allow-against-policy": 5,
+				"mail:no-answer-checked": 20, "rcpt:no-answer-checked": 40, "stored:no-answer-checked": 30,
+				"stored:rewrite": 30, "stored:rewrite-to-empty-list": 1, "stored:rewrite-to-mailbox-no-recipient-named": 10,
+				"stored:leaf:mutate-then-error": 5, "transparent_deliveries_compared": 30, "messages_compared_with_reference": 30,
+				"first-wins:rcpt:go-first": 1, "first-wins:rcpt:lua-first": 1, "first-wins:stored:go-first": 1, "first-wins:stored:lua-first": 1,
+				"removals_checked": 50, "after_stored:error": 10, "after_stored:mutate-error": 10, "after_deleted:error": 5, "after_deleted:mutate-error": 5, "conc_rounds": 10, "conc_sessions": 100, "conc_denies_echoed": 100, "conc_deliveries": 50,
+				"conc_fallbacks": 50, "distinct_nontrivial": 100,
+			}
+		},
+		Run: run,
+	})
+}
+
+func run(c *fw.Ctx) {
+	c.Cases("script", c.N(1200, 30000), func(i int, r *fw.Rand) { runScript(c, i, r) })
+	c.Cases("conc", c.N(64, 1500), func(i int, r *fw.Rand) { runConcRound(c, i, r) })
+}
